@@ -12,7 +12,7 @@ class Ob:
 
     def __init__(self, name, props, enforce=None, replace=(), harness=None, entry=None, defines=(), contracts=(),
                  unwind=20, unwindset=None, timeout=300, flags=(), canary=True, bounded=None, note='', reveal=(),
-                 tier='quick', solver=None, expect_fail=(), args=None, pre=''):
+                 tier='quick', solver=None, expect_fail=(), args=None, pre='', split=0):
         self.name = name
         self.props = props if isinstance(props, (list, tuple)) else [props]
         self.enforce = enforce
@@ -33,6 +33,7 @@ class Ob:
         self.expect_fail = list(expect_fail)   # obligation-id regexes that are known findings' raw failures
         self.args = args              # optional explicit harness body for the enforced call
         self.pre = pre
+        self.split = split            # > 0: check the properties in this many groups, in parallel (each group is sliced separately)
 
 
 def _limits():
@@ -304,18 +305,68 @@ def run_ob(ob, gen_dir, work, meta):
         cmd += ['--external-sat-solver', 'kissat']
     res['backend'] = {'kissat': 'CBMC bit-blasting + kissat (external SAT solver)', 'minisat': 'CBMC built-in SAT (MiniSat 2.2.1)',
                       'z3': 'CBMC SMT2 + z3 4.8.12'}[solver]
-    rc, so, se, secs = run(cmd, ob.timeout)
-    res['seconds'] = round(time.time() - t0, 1)
-    res['solver_seconds'] = round(secs, 1)
-    open(os.path.join(d, 'cbmc.json'), 'w').write(so)
-    if rc == -9:
-        res['reason'] = 'solver timeout after %ds' % ob.timeout
-        return res
-    try:
-        js = json.loads(so)
-    except Exception:
-        res['reason'] = 'cbmc produced no parsable result (rc=%s): %s' % (rc, (se or so)[-600:])
-        return res
+    if ob.split:
+        rc, so, se, _ = run(['cbmc', cur, '--object-bits', '12', '--drop-unused-functions', '--show-properties', '--json-ui'], 300)
+        names = []
+        try:
+            for blk in json.loads(so):
+                if isinstance(blk, dict) and 'properties' in blk:
+                    names = [p['name'] for p in blk['properties']]
+        except Exception:
+            pass
+        if not names:
+            res['reason'] = 'cannot list properties for split mode: ' + (se or so)[-300:]
+            return res
+        groups = [names[i::ob.split] for i in range(ob.split)]
+        import concurrent.futures
+
+        def one(g):
+            c2 = list(cmd)
+            for n_ in g:
+                c2 += ['--property', n_]
+            return run(c2, ob.timeout)
+        with concurrent.futures.ThreadPoolExecutor(max_workers=ob.split) as ex:
+            outs = list(ex.map(one, [g for g in groups if g]))
+        res['seconds'] = round(time.time() - t0, 1)
+        res['solver_seconds'] = round(sum(o[3] for o in outs), 1)
+        res['split_groups'] = len(outs)
+        merged = []
+        for (rc, so, se, secs) in outs:
+            if rc == -9:
+                res['reason'] = 'solver timeout after %ds (split mode)' % ob.timeout
+                return res
+            try:
+                js1 = json.loads(so)
+            except Exception:
+                res['reason'] = 'cbmc produced no parsable result in split mode (rc=%s): %s' % (rc, (se or so)[-400:])
+                return res
+            got = False
+            for blk in js1:
+                if isinstance(blk, dict) and 'result' in blk:
+                    merged += blk['result']
+                    got = True
+                if isinstance(blk, dict) and blk.get('messageType') == 'ERROR' and not res['reason']:
+                    res['reason'] = 'cbmc error: ' + blk.get('messageText', '')[:400]
+            if not got:
+                if not res['reason']:
+                    res['reason'] = 'cbmc gave no result block in split mode'
+                return res
+        js = [{'result': merged}]
+        so = json.dumps(js)
+        open(os.path.join(d, 'cbmc.json'), 'w').write(so)
+    else:
+        rc, so, se, secs = run(cmd, ob.timeout)
+        res['seconds'] = round(time.time() - t0, 1)
+        res['solver_seconds'] = round(secs, 1)
+        open(os.path.join(d, 'cbmc.json'), 'w').write(so)
+        if rc == -9:
+            res['reason'] = 'solver timeout after %ds' % ob.timeout
+            return res
+        try:
+            js = json.loads(so)
+        except Exception:
+            res['reason'] = 'cbmc produced no parsable result (rc=%s): %s' % (rc, (se or so)[-600:])
+            return res
     results = None
     for blk in js:
         if isinstance(blk, dict) and 'result' in blk:
